@@ -877,6 +877,9 @@ func TestC04RemoteReader(t *testing.T) {
 		keys := m.SortedKeys()
 		errs := 0
 		wrote := false
+		// unspec: keys of local writes that FAILED (the reader returned an error): whether such a write took effect is not
+		// specified, so answers about that key are not judged until it is written successfully again - every other key is
+		unspec := map[string]bool{}
 		doGet := func(k []byte) {
 			v, err := reader.Get(ctx, k)
 			if err != nil {
@@ -885,6 +888,9 @@ func TestC04RemoteReader(t *testing.T) {
 				return
 			}
 			trace = append(trace, fmt.Sprintf("get %x -> %d bytes nil=%v", k, len(v), v == nil))
+			if unspec[string(k)] {
+				return
+			}
 			if want := modelAnswer(m, k); want.Present != (v != nil) || !bytes.Equal(v, want.Value) {
 				fail("remote-wrong-answer", "remote Get(%x) returned %x (nil=%v), truth %s", k, v, v == nil, want)
 			}
@@ -893,8 +899,20 @@ func TestC04RemoteReader(t *testing.T) {
 			it := reader.NewIterator(ctx, mkvs.IteratorPrefetch(uint16(rapid.IntRange(0, 5).Draw(t, "itprefetch"))))
 			defer it.Close()
 			it.Seek(seek)
+			keys := keys
+			if len(unspec) > 0 {
+				keys = nil
+				for _, k := range m.SortedKeys() {
+					if !unspec[k] {
+						keys = append(keys, k)
+					}
+				}
+			}
 			pos := sort.SearchStrings(keys, string(seek))
 			for s := 0; s <= steps; s++ {
+				for it.Err() == nil && it.Valid() && unspec[string(it.Key())] {
+					it.Next()
+				}
 				if it.Err() != nil {
 					errs++
 					trace = append(trace, fmt.Sprintf("iter from %x -> error after %d", seek, s))
@@ -919,7 +937,7 @@ func TestC04RemoteReader(t *testing.T) {
 		}
 		nops := rapid.IntRange(1, 10).Draw(t, "nops")
 		writeFailed := false
-		for i := 0; i < nops && !writeFailed; i++ {
+		for i := 0; i < nops; i++ {
 			op := rapid.IntRange(0, 5).Draw(t, "op")
 			if op >= 4 && !mayWrite {
 				op -= 4
@@ -937,27 +955,31 @@ func TestC04RemoteReader(t *testing.T) {
 					v = []byte{}
 				}
 				if err := reader.Insert(ctx, k, v); err != nil {
-					// the property allows an error; what a failed write leaves behind is not specified - the case ends here
-					trace = append(trace, fmt.Sprintf("local insert %x -> error (case ends)", k))
+					// the property allows an error; whether the failed write took effect for ITS key is not specified
+					trace = append(trace, fmt.Sprintf("local insert %x -> error", k))
 					rec.Label("local-write-error")
 					errs++
 					writeFailed = true
+					unspec[string(k)] = true
 					break
 				}
 				wrote = true
+				delete(unspec, string(k))
 				m[string(k)] = v
 				keys = m.SortedKeys()
 				trace = append(trace, fmt.Sprintf("local insert %x (%d bytes)", k, len(v)))
 			case 5:
 				k := queryKey(t, uni)
 				if err := reader.Remove(ctx, k); err != nil {
-					trace = append(trace, fmt.Sprintf("local remove %x -> error (case ends)", k))
+					trace = append(trace, fmt.Sprintf("local remove %x -> error", k))
 					rec.Label("local-write-error")
 					errs++
 					writeFailed = true
+					unspec[string(k)] = true
 					break
 				}
 				wrote = true
+				delete(unspec, string(k))
 				delete(m, string(k))
 				keys = m.SortedKeys()
 				trace = append(trace, fmt.Sprintf("local remove %x", k))
@@ -974,7 +996,10 @@ func TestC04RemoteReader(t *testing.T) {
 		if wrote {
 			rec.Label("local-writes-on-remote-reader")
 		}
-		if !writeFailed && (ncap == 0 || ncap >= uint64(safe)) {
+		if writeFailed {
+			rec.Label("local-write-error-then-continued")
+		}
+		if ncap == 0 || ncap >= uint64(safe) {
 			before := errs
 			for _, k := range uni {
 				doGet(k)
